@@ -59,19 +59,19 @@ def SAll (h : List Sys) (c0 n : Nat) : Prop := ∀ m s, m ≤ n → h[m]? = some
 
 
 /-- the log of a commit event is a leader's log -/
-theorem Ev.leaderLog (H : Hyp2 cfg c0 h) {E : Ev} (hE : E.ok h) :
+theorem Ev.leaderLog (H : Hyp2w cfg c0 h) {E : Ev} (hE : E.ok h) :
     LeaderLog h c0 (E.nE + 1) E.t (EvF h c0 E) ∧ Has (EvF h c0 E) E.c E.t ∧ c0 < E.c := by
   obtain ⟨a, b, sta, stb, ha, hb, hla, hlb, hs, ht, hc, _, hg, _, _, hc0, hh, _⟩ := Ev.facts H hE
   exact ⟨⟨E.nE + 1, b, E.l, stb, Nat.le_refl _, hb, hlb, hs, ht, hg⟩, hh, hc0⟩
 
 /-- the end of a leader's ghost log is the end of its logical log -/
-theorem fl_last (H : Hyp2 cfg c0 h) {n : Nat} {s : Sys} (hn : h[n]? = some s) {v : Nat}
+theorem fl_last (H : Hyp2w cfg c0 h) {n : Nat} {s : Sys} (hn : h[n]? = some s) {v : Nat}
     {st : NState} (hv : s.node v = some st) :
     (FL h c0 st).lastIndex = st.raft.raftLog.abs.lastIndex :=
   (node_full H n s hn v st hv).log.last
 
 /-- two logs of the leader of one term hold the same entry wherever both reach -/
-theorem ll_eq (H : Hyp2 cfg c0 h) {N N' t : Nat} {L L' : LLog} (h1 : LeaderLog h c0 N t L)
+theorem ll_eq (H : Hyp2w cfg c0 h) {N N' t : Nat} {L L' : LLog} (h1 : LeaderLog h c0 N t L)
     (h2 : LeaderLog h c0 N' t L') {k : Nat} (hk : k ≤ L.lastIndex) (hk' : k ≤ L'.lastIndex) :
     L.entryAt k = L'.entryAt k := by
   obtain ⟨m, s, l, st, _, a2, a3, a4, a5, rfl⟩ := h1
@@ -80,7 +80,7 @@ theorem ll_eq (H : Hyp2 cfg c0 h) {N N' t : Nat} {L L' : LLog} (h1 : LeaderLog h
     (by rw [← fl_last H b2 b3]; exact hk')
 
 /-- a node's log that holds an entry of a leader's log at `c` equals that log up to `c` -/
-theorem eq_ll (H : Hyp2 cfg c0 h) {n : Nat} {s : Sys} (hn : h[n]? = some s) {v : Nat}
+theorem eq_ll (H : Hyp2w cfg c0 h) {n : Nat} {s : Sys} (hn : h[n]? = some s) {v : Nat}
     {st : NState} (hv : s.node v = some st) {N t : Nat} {L : LLog} (hL : LeaderLog h c0 N t L)
     {c τ : Nat} (h1 : Has (FL h c0 st) c τ) (h2 : Has L c τ) :
     EqUpTo (FL h c0 st) L c := by
@@ -91,7 +91,7 @@ theorem eq_ll (H : Hyp2 cfg c0 h) {n : Nat} {s : Sys} (hn : h[n]? = some s) {v :
 
 /-- **a leader of the event's term or a later one holds the committed entry** (for the event's own
 term: once its log reaches the index) -/
-theorem ll_has (H : Hyp2 cfg c0 h) {n : Nat} (S : SAll h c0 n) {τ : Nat} {L : LLog}
+theorem ll_has (H : Hyp2w cfg c0 h) {n : Nat} (S : SAll h c0 n) {τ : Nat} {L : LLog}
     (hL : LeaderLog h c0 n τ L) {E : Ev} (hE : E.ok h) (hle : E.t ≤ τ)
     (hreach : τ = E.t → E.c ≤ L.lastIndex) : Has L E.c E.t := by
   by_cases hlt : E.t < τ
@@ -107,7 +107,7 @@ theorem ll_has (H : Hyp2 cfg c0 h) {n : Nat} (S : SAll h c0 n) {τ : Nat} {L : L
 /-- **the logs of two commit events agree**: the log of a past event `E0` holds the entry of any event
 `E` that committed no more (`E.c ≤ E0.c`) — given, when `E0`'s term is the smaller one, that `E`'s term
 has been led by now -/
-theorem ctf (H : Hyp2 cfg c0 h) {n : Nat} (S : SAll h c0 n) {E0 E : Ev} (hE0 : E0.ok h)
+theorem ctf (H : Hyp2w cfg c0 h) {n : Nat} (S : SAll h c0 n) {E0 E : Ev} (hE0 : E0.ok h)
     (hE : E.ok h) (hpast : E0.nE < n) (hc : E.c ≤ E0.c)
     (hled : E0.t < E.t → ∃ L, LeaderLog h c0 n E.t L) : Has (EvF h c0 E0) E.c E.t := by
   obtain ⟨hl0, hh0, _⟩ := Ev.leaderLog H hE0
